@@ -85,6 +85,40 @@ pub fn gen_twins(t: &mut Tape) -> Job {
     Job { origin: "twins".into(), files, root: "main.asm".into(), generated: true }
 }
 
+/// v2: rules that reach the same instruction text from DIFFERENT prefix buckets of the matcher index
+/// (`j{c: cond} {a}` beside `jl {a}`, a rule starting with a parameter beside one starting with a literal),
+/// used by lines that tie or fail every candidate, so that the order of candidates shows in the diagnostics.
+pub fn gen_buckets(t: &mut Tape) -> Job {
+    let mut src = String::from(
+        "#subruledef cond\n{\n    l => 0x1\n    e => 0x2\n    le => 0x3\n}\n#subruledef reg\n{\n    a => 0x1\n    b => 0x2\n}\n#ruledef\n{\n",
+    );
+    let mut rules = vec![
+        "    j{c: cond} {a: u8} => 0x10 @ c`8 @ a",
+        "    jl {a: u8} => 0x20 @ 0x00 @ a",
+        "    jle {a: u8} => 0x21 @ 0x00 @ a",
+        "    {r: reg}.set {v: u8} => 0x30 @ r`8 @ v",
+        "    a.set {v: u8} => 0x31 @ 0x01 @ v",
+        "    b.set {v: u4} => 0x32 @ 0x1 @ v",
+    ];
+    for i in (1..rules.len()).rev() {
+        let j = t.below(i + 1);
+        rules.swap(i, j);
+    }
+    for r in &rules {
+        src.push_str(r);
+        src.push('\n');
+    }
+    src.push_str("}\n");
+    let lines = ["jl 5", "jle 7", "a.set 7", "b.set 3", "je 1", "jl 300", "jle 999", "a.set 256", "b.set 16", "b.set 200"];
+    let n = t.urange(1, 5);
+    for _ in 0..n {
+        let l: &str = lines[t.below(lines.len())];
+        src.push_str(l);
+        src.push('\n');
+    }
+    Job { origin: "buckets".into(), files: vec![("main.asm".into(), src.into_bytes())], root: "main.asm".into(), generated: true }
+}
+
 pub const TWIN_SET: &[&str] = &["symbols", "mesen-mlb", "addrspan", "annotated"];
 
 fn first_difference(a: &str, b: &str) -> String {
@@ -101,7 +135,7 @@ impl Property for C10 {
         "C10"
     }
     fn rule(&self) -> String {
-        "each case = one job (generated size-static or cascading program with many sibling symbols and rules, corpus program, mutated corpus program, or - one in six - a root file including 2-4 files with the same byte layout so that equal byte ranges and equal values tie across files; failing programs included) x one \
+        "each case = one job (generated size-static or cascading program with many sibling symbols and rules, corpus program, mutated corpus program, or - one in six - a root file including 2-4 files with the same byte layout so that equal byte ranges and equal values tie across files, or - one in eight - an instruction set whose rules reach the same text from different prefix buckets of the matcher index, with lines that tie or fail every candidate; failing programs included) x one \
          command line with up to 5 output groups drawn from fixed format sets (incl. symbols, mesen-mlb, annotated, addrspan, and command lines with several invalid format parameters) run \
          4 times in one process: on the worker thread, on a fresh thread, and on both again after a random history of 1-3 other jobs; every 40th case additionally runs the real binary 3 \
          times in fresh processes (stdout, stderr, exit status, files) and compares the files with the in-process run. Oracle: the full record - success flag, printed diagnostics, every \
@@ -123,8 +157,12 @@ impl Property for C10 {
     }
     fn run(&self, t: &mut Tape, ctx: &mut CaseCtx) -> Verdict {
         let twins = crate::engine::gen_version() >= 2 && t.chance(1, 6);
+        let buckets = crate::engine::gen_version() >= 2 && !twins && t.chance(1, 8);
         let job = if twins {
             gen_twins(t)
+        } else if buckets {
+            ctx.label("buckets");
+            gen_buckets(t)
         } else if t.chance(1, 2) {
             let (prog, _) = crate::props::c02::gen_cascade(t, 24);
             let (src, _) = crate::model::program::render(&prog);
@@ -152,7 +190,7 @@ impl Property for C10 {
         let text = job.files.iter().find(|f| f.0 == job.root).map(|f| String::from_utf8_lossy(&f.1).to_string()).unwrap_or_default();
         let nsym = text.lines().filter(|l| l.trim_end().ends_with(':') || l.contains(" = ")).count();
         let ndiag = r0.matches("error:").count();
-        ctx.nontrivial = nsym >= 8 || ndiag >= 2 || set.len() == 1 || twins;
+        ctx.nontrivial = nsym >= 8 || ndiag >= 2 || set.len() == 1 || twins || buckets;
         ctx.label(if r0.starts_with("ok=true") { "succeeds" } else { "fails" });
         ctx.render(|| json!({"job": job_json(&job), "args": args}));
         let fail = |ctx: &mut CaseCtx, how: &str, a: &str, b: &str| -> Verdict {
